@@ -47,6 +47,7 @@ from quara.simulation.depolarized_qoperation_generation_setting import (
 from quara.simulation.random_effective_lindbladian_generation_setting import (
     RandomEffectiveLindbladianGenerationSetting,
 )
+from quara.utils.number_util import to_stream
 
 
 class StandardQTomographySimulationSetting:
@@ -839,6 +840,9 @@ def generate_empi_dists_and_calc_estimate(
     else:
         estimation_results = []
         empi_dists_sequences = []
+        # one stream for all repetitions: an int seed must not become a NEW generator in every repetition
+        if seed_or_generator is not None:
+            seed_or_generator = to_stream(seed_or_generator)
         for _ in tqdm(range(iteration)):
             estimation_result, empi_dists_seq = _generate_empi_dists_and_calc_estimate(
                 qtomography,
